@@ -56,6 +56,7 @@ void COSdoReset(CO_SDO *srv, uint8_t num, CO_NODE *node)
     srvnum->Seg.TBit     = 0;
     srvnum->Seg.Num      = 0;
     srvnum->Seg.Size     = 0;
+    srvnum->Seg.Dir      = 0;
     srvnum->Blk.State    = BLK_IDLE;
 }
 
@@ -396,6 +397,7 @@ CO_ERR COSdoInitUploadSegmented(CO_SDO *srv, uint32_t size)
     srv->Seg.Size = size;
     srv->Seg.TBit = 0;
     srv->Seg.Num  = 0;
+    srv->Seg.Dir  = 1;
 
     return (result);
 }
@@ -408,7 +410,7 @@ CO_ERR COSdoUploadSegmented(CO_SDO *srv)
     uint8_t  c_bit  = 0;
     uint8_t  i;
 
-    if (srv->Obj == 0) {
+    if ((srv->Obj == 0) || (srv->Seg.Dir != 1)) {
         COSdoAbort(srv, CO_SDO_ERR_CMD);
         return (CO_ERR_SDO_ABORT);
     }
@@ -497,6 +499,7 @@ CO_ERR COSdoInitDownloadSegmented(CO_SDO *srv)
         srv->Seg.Size = size;
         srv->Seg.TBit = 0;
         srv->Seg.Num  = 0;
+        srv->Seg.Dir  = 2;
     }
     return (result);
 }
@@ -509,6 +512,11 @@ CO_ERR COSdoDownloadSegmented(CO_SDO *srv)
     uint8_t  n;
     uint8_t  cmd;
     uint8_t  bid;
+
+    if ((srv->Obj == 0) || (srv->Seg.Dir != 2)) {
+        COSdoAbort(srv, CO_SDO_ERR_CMD);
+        return (CO_ERR_SDO_ABORT);
+    }
 
     cmd = CO_GET_BYTE(srv->Frm, 0);
     if ((cmd >> 4) != srv->Seg.TBit) {
@@ -547,6 +555,8 @@ CO_ERR COSdoDownloadSegmented(CO_SDO *srv)
         srv->Seg.Size = 0;
         srv->Seg.Num  = 0;
         srv->Obj      = 0;
+        srv->Buf.Cur  = srv->Buf.Start;
+        srv->Buf.Num  = 0;
     } else {
         if (len <= 4) {
             result = CO_ERR_SDO_WRITE;
